@@ -169,6 +169,14 @@ WasmCells == { c \in [fam : {"target"}, what : {"cast"}, a : WInts, b : WInts, w
                     place : {"var", "member", "elem", "nested", "const", "constmember"}, wasm : BOOLEAN]
              \cup [fam : {"target"}, what : {"size"}, a : {"ptr", "ptrarray", "ptrstruct", "usize", "usizearray", "mixed"},
                     b : {"ret", "const"}, wasm : BOOLEAN]
+             \* (twelfth round, C03k) casts whose operand is known at COMPILE time -- a suffixed literal, a named constant, `|x|`, `|:T|`
+             \* (the last two are of type usize) -- in every position of a value, inside constant aggregates in particular: the
+             \* verifier of the compiler does not look into the elements of a constant aggregate, llvm-as does
+             \cup { c \in [fam : {"target"}, what : {"ccast"}, a : WInts, b : WInts, src : {"lit", "named", "len", "size"},
+                           place : {"var", "elem", "nested", "member", "const", "constnested"}, wasm : BOOLEAN] :
+                       /\ c.a # c.b /\ (c.src \in {"len", "size"} => c.a = "usize")
+                       \* (`|x|` is not an expression of a constant declaration: E360)
+                       /\ ~(c.src = "len" /\ c.place \in {"const", "constnested"}) }
 
 (***************************************************************************)
 (* two by-catches of the ninth seeding round, found on the UNCHANGED tree:  *)
